@@ -61,6 +61,9 @@ type Frame struct {
 	private   []privAlloc
 	rangeOrd  map[*ssa.CallCommon]int
 	guardOf   map[ssa.Value]string // value loaded from a guarded field -> address term of its lock
+	frameTargetsCache map[string][]frameTarget
+	preHeaps  map[int]Heap // loop header -> heap on loop entry
+	lockAtHead map[int][2]string // loop header -> lock-held arrays at the head
 }
 
 type loopInfo struct {
@@ -82,7 +85,9 @@ func (fr *Frame) oblig(kind, group, label, f, src string, pos token.Pos) {
 	if group == "safety" && !fr.safety {
 		// no_safety: the condition is not an obligation of this unit, but execution continues past this
 		// point only if it held (otherwise the statement panicked)
-		if f != "true" {
+		// (only type assertions: they carry the typeis() facts contracts rely on; assuming every bounds
+		// and nil condition as well made the quantifier instantiation of large units blow up)
+		if f != "true" && kind == "typeassert" {
 			fr.assume(f, "no_safety: "+src)
 		}
 		return
@@ -421,6 +426,10 @@ func (fr *Frame) block(b *ssa.BasicBlock, entryGuard string, entryHeap Heap, pos
 			fr.preVals = map[int]map[string]*SVal{}
 		}
 		fr.preVals[b.Index] = map[string]*SVal{}
+		if fr.preHeaps == nil {
+			fr.preHeaps = map[int]Heap{}
+		}
+		fr.preHeaps[b.Index] = h
 		for _, ph := range phis {
 			fr.vals[ph] = entryVals[ph]
 			if ph.Comment != "" {
@@ -437,8 +446,19 @@ func (fr *Frame) block(b *ssa.BasicBlock, entryGuard string, entryHeap Heap, pos
 		}
 		var decEntry string
 		_ = decEntry
+		// the frame so far is an implicit loop invariant: what the loop havoc forgets about objects
+		// outside the modifies clause is re-assumed at the head and re-proved on every back edge
+		if fr.frameActive() {
+			fr.frameOblig("on loop entry", h, fr.blockPos(b))
+		}
 		// havoc
 		h = fr.havocLoop(li, h)
+		if fr.frameActive() {
+			_, fs := fr.frameFormulas(h)
+			for _, f := range fs {
+				fr.assume(f, "frame so far (implicit loop invariant)")
+			}
+		}
 		for _, ph := range phis {
 			fr.vals[ph] = fr.symbolic(fmt.Sprintf("phi%s", ph.Name()), ph.Type())
 			if f := fr.typeFacts(fr.vals[ph].T, ph.Type(), h); f != "true" {
@@ -544,6 +564,24 @@ func (fr *Frame) loopInvs(li *loopInfo) []Clause {
 func (fr *Frame) backEdge(from, header *ssa.BasicBlock, e string, h Heap) {
 	li := fr.loops[header.Index]
 	invs := fr.loopInvs(li)
+	if la, ok := fr.lockAtHead[header.Index]; ok {
+		g := fr.g
+		wn, ws := g.lockArr("W")
+		rn, rs := g.lockArr("R")
+		cw, cr := g.heapArr(h, wn, ws), g.heapArr(h, rn, rs)
+		if cw != la[0] || cr != la[1] {
+			oldGuard := fr.curGuard
+			fr.curGuard = e
+			fr.oblig("lock", "locks", "lock_discipline", and(fmt.Sprintf("(= %s %s)", cw, la[0]), fmt.Sprintf("(= %s %s)", cr, la[1])), "a loop iteration leaves every lock as it found it", fr.blockPos(from))
+			fr.curGuard = oldGuard
+		}
+	}
+	if fr.frameActive() {
+		oldGuard := fr.curGuard
+		fr.curGuard = e
+		fr.frameOblig("on loop back edge", h, fr.blockPos(from))
+		fr.curGuard = oldGuard
+	}
 	if len(invs) == 0 {
 		return
 	}
@@ -584,6 +622,56 @@ func (fr *Frame) backEdge(from, header *ssa.BasicBlock, e string, h Heap) {
 	for ph, v := range saved {
 		fr.vals[ph] = v
 	}
+}
+
+// finalCell: an escaping local (captured by closures) that is assigned exactly once, by the function
+// itself, and never written by any closure that captures it. No callee can change it (it is not
+// reachable by name, and every closure that holds its address only reads it).
+func finalCell(a *ssa.Alloc) bool {
+	stores := 0
+	var closureWrites func(fn *ssa.Function, fv *ssa.FreeVar) bool
+	closureWrites = func(fn *ssa.Function, fv *ssa.FreeVar) bool {
+		for _, ref := range *fv.Referrers() {
+			switch x := ref.(type) {
+			case *ssa.Store:
+				if x.Addr == ssa.Value(fv) {
+					return true
+				}
+			case *ssa.UnOp, *ssa.DebugRef:
+			case *ssa.MakeClosure:
+				inner := x.Fn.(*ssa.Function)
+				for i, b := range x.Bindings {
+					if b == ssa.Value(fv) && closureWrites(inner, inner.FreeVars[i]) {
+						return true
+					}
+				}
+			default:
+				return true // address escapes in some other way
+			}
+		}
+		return false
+	}
+	for _, ref := range *a.Referrers() {
+		switch x := ref.(type) {
+		case *ssa.Store:
+			if x.Addr == ssa.Value(a) {
+				stores++
+			} else {
+				return false // the address itself is stored somewhere
+			}
+		case *ssa.UnOp, *ssa.DebugRef:
+		case *ssa.MakeClosure:
+			inner := x.Fn.(*ssa.Function)
+			for i, b := range x.Bindings {
+				if b == ssa.Value(a) && closureWrites(inner, inner.FreeVars[i]) {
+					return false
+				}
+			}
+		default:
+			return false
+		}
+	}
+	return stores <= 1
 }
 
 func (fr *Frame) havocAll(h Heap) Heap {
@@ -735,6 +823,16 @@ func (fr *Frame) havocLoop(li *loopInfo, h Heap) Heap {
 	if all {
 		return fr.havocAll(h)
 	}
+	// lock-held ghosts are not havocked: an iteration must leave every lock as it found it (checked on
+	// the back edges), so the state at the head is the state on entry
+	wn, _ := g.lockArr("W")
+	rn, _ := g.lockArr("R")
+	delete(targets, wn)
+	delete(targets, rn)
+	if fr.lockAtHead == nil {
+		fr.lockAtHead = map[int][2]string{}
+	}
+	fr.lockAtHead[li.header.Index] = [2]string{g.heapArr(h, wn, g.heapSort[wn]), g.heapArr(h, rn, g.heapSort[rn])}
 	nh := h.clone()
 	// allocation counter grows
 	oldAlloc := fr.allocOf(h)
